@@ -91,6 +91,8 @@ type Contract struct {
 	AbstractCallees []string
 	PathLimit     int
 	ImplOf        string // this method implements the contract of an interface method (checked against it)
+	StableTypes   []string   // struct types none of whose fields an abstracted (unknown) callee is assumed to write
+	Stable        []ModEntry // locations assumed not to be written by abstracted (unknown) callees
 	ImplContract  *Contract
 	ParamAliases  map[string]int
 }
@@ -137,7 +139,7 @@ type Lemma struct {
 	File   string
 }
 
-var clauseKW = []string{"loop-call", "requires", "ensures-on-panic", "ensures", "modifies", "loop", "assert-at", "trusted", "inline", "abstract-calls", "may-panic",
+var clauseKW = []string{"stable-types", "stable", "loop-call", "requires", "ensures-on-panic", "ensures", "modifies", "loop", "assert-at", "trusted", "inline", "abstract-calls", "may-panic",
 	"allow-send", "arith", "let", "noalloc", "call-inline", "call-abstract", "callback", "path-limit", "implements", "var", "call", "assume", "assert", "havoc"}
 var topKW = []string{"func", "spec", "ghost", "axiom", "lemma", "package", "table"}
 
@@ -513,6 +515,18 @@ func (w *World) parseFuncContract(it rawItem, pkg *types.Package, external bool)
 			if err := parseCallback(c, rest); err != nil {
 				return err
 			}
+		case "stable-types":
+			for _, t := range strings.Split(rest, ",") {
+				if t = strings.TrimSpace(t); t != "" {
+					c.StableTypes = append(c.StableTypes, t)
+				}
+			}
+		case "stable":
+			ents, _, err := parseModifies(rest)
+			if err != nil {
+				return err
+			}
+			c.Stable = append(c.Stable, ents...)
 		case "trusted":
 			c.Trusted = true
 		case "inline":
